@@ -17,6 +17,7 @@ type Clause struct {
 }
 
 type LoopSpec struct {
+	Steps      []Clause // relations between the state at the head of an iteration (prev(..)) and at its end
 	Invariants []Clause
 	Decreases  *Clause
 	Unroll     int
@@ -30,6 +31,7 @@ type Contract struct {
 	Modifies []Clause // each a location expression
 	HasMod   bool     // a modifies clause was given (possibly "nothing")
 	Loops    map[int]*LoopSpec
+	Events   []Clause // call-event ghosts: "event <ghost>: <expr>" appended at every call site
 	Trusted  bool // contract is assumed, body not checked against it
 	Reason   string
 	Props    []string
@@ -52,7 +54,7 @@ type ContractSet struct {
 	Files      []string
 }
 
-var clauseKw = regexp.MustCompile(`^(func|iface|callback|requires|ensures|modifies|loop|invariant|decreases|unroll|trusted|props|safety|noinline|global-invariant|lemma|typeinv|end)\b`)
+var clauseKw = regexp.MustCompile(`^(func|iface|callback|spawn|event|step|requires|ensures|modifies|loop|invariant|decreases|unroll|trusted|props|safety|noinline|global-invariant|lemma|typeinv|end)\b`)
 
 // LoadContracts reads //@ comment blocks from the given files.
 func LoadContracts(files ...string) (*ContractSet, error) {
@@ -121,10 +123,10 @@ func (cs *ContractSet) loadFile(path string) error {
 	}
 	for _, r := range raws {
 		switch r.kw {
-		case "func", "iface", "callback":
+		case "func", "iface", "callback", "spawn":
 			key := strings.TrimSpace(r.text)
-			if r.kw == "callback" {
-				key = "callback " + key
+			if r.kw == "callback" || r.kw == "spawn" {
+				key = r.kw + " " + key
 			}
 			cur = &Contract{Key: key, Iface: r.kw != "func", Loops: map[int]*LoopSpec{}, Line: r.line}
 			if _, dup := cs.Funcs[key]; dup {
@@ -164,12 +166,22 @@ func (cs *ContractSet) loadFile(path string) error {
 				return fmt.Errorf("%s:%d: clause %q outside func block", path, r.line, r.kw)
 			}
 			switch r.kw {
-			case "requires", "ensures", "invariant", "decreases":
+			case "requires", "ensures", "invariant", "decreases", "event", "step":
 				c, err := mkClause(r)
 				if err != nil {
 					return err
 				}
 				switch r.kw {
+				case "step":
+					if curLoop == nil {
+						return fmt.Errorf("%s:%d: step outside loop", path, r.line)
+					}
+					curLoop.Steps = append(curLoop.Steps, c)
+				case "event":
+					if c.Label == "" {
+						return fmt.Errorf("%s:%d: event needs '<ghost>: <expr>'", path, r.line)
+					}
+					cur.Events = append(cur.Events, c)
 				case "requires":
 					cur.Requires = append(cur.Requires, c)
 				case "ensures":
